@@ -295,9 +295,9 @@ fn arguments_for(kind: u8, tag: &str, call_id: &str) -> (String, String, String)
         2 => ("read".into(), "read".into(), json!({"path": format!("seed/{tag}.txt")}).to_string()),
         3 => ("read_missing".into(), "read".into(), json!({"path": format!("missing/{tag}.txt")}).to_string()),
         4 => ("ls".into(), "ls".into(), json!({"path": "seed", "include": [format!("{tag}*")]}).to_string()),
-        8 => ("bash".into(), "bash".into(), json!({"command": format!("mkdir -p calls; echo {call_id} >> calls/{tag}.txt")}).to_string()),
+        8 => ("bash".into(), "bash".into(), json!({"command": format!("mkdir -p calls; echo {call_id} >> calls/{tag}.txt"), "cwd": "."}).to_string()),
         // the alias the registry also knows the bash tool by: a tool choice that names `bash` bars it
-        9 => ("shell_alias".into(), "shell".into(), json!({"command": format!("mkdir -p calls; echo {call_id} >> calls/{tag}.txt")}).to_string()),
+        9 => ("shell_alias".into(), "shell".into(), json!({"command": format!("mkdir -p calls; echo {call_id} >> calls/{tag}.txt"), "cwd": "."}).to_string()),
         // names that differ from a declared tool only by case / padding: not that tool
         10 => ("write_other_case".into(), "Write".into(), json!({"path": format!("calls/{tag}.txt"), "content": format!("{call_id}\n"), "append": true}).to_string()),
         11 => ("write_padded_name".into(), "write ".into(), json!({"path": format!("calls/{tag}.txt"), "content": format!("{call_id}\n"), "append": true}).to_string()),
